@@ -337,6 +337,44 @@ theorem inv_copy {st : NState} {fc : Scope} {parents : List Scope} (hi : Inv st)
     simp only [chainLocals, List.nil_append] at hn
     exact hi.locLower n (by rw [hch]; simpa [chainLocals] using hn)
 
+/-- the invariant only looks at the context chain and the package-level names -/
+theorem inv_of_eq {a b : NState} (hi : Inv a) (hc : a.chain = b.chain) (hp : a.pkgNames = b.pkgNames) : Inv b := by
+  have hv : visible b = visible a := by simp [visible, hc, hp]
+  exact ⟨by rw [hv]; exact hi.nodup, by rw [← hc, ← hp]; exact hi.pkg, by rw [← hc]; exact hi.lc,
+    by rw [← hc]; exact hi.res, by rw [hv]; exact hi.notres, by rw [← hp]; exact hi.pkgUpper,
+    by rw [← hc]; exact hi.locLower⟩
+
+/-- recording an object name touches neither `allVars` nor `localVars` -/
+theorem inv_recordObj {st : NState} {c : List Scope} (o : Nat) (nm : Name) (hi : Inv { st with chain := c }) :
+    Inv { st with chain := recordObj o nm c } := by
+  cases c with
+  | nil => simpa [recordObj] using hi
+  | cons sc r =>
+    have hlc := hi.lc
+    refine ⟨by simpa [visible, recordObj, chainLocals] using hi.nodup, ?_, ?_, ?_,
+      by simpa [visible, recordObj, chainLocals] using hi.notres, hi.pkgUpper,
+      by simpa [recordObj, chainLocals] using hi.locLower⟩
+    · intro n hn s hs
+      simp only [recordObj, List.mem_cons] at hs
+      rcases hs with rfl | hs
+      · exact hi.pkg n hn sc (by simp)
+      · exact hi.pkg n hn s (by simp [hs])
+    · exact ⟨by simpa [chainLocals] using hlc.1, hlc.2⟩
+    · intro s hs
+      simp only [recordObj, List.mem_cons] at hs
+      rcases hs with rfl | hs
+      · exact hi.res sc (by simp)
+      · exact hi.res s (by simp [hs])
+
+/-- SEEDED-CHANGE SHAPE — a package-level name that is counted in the package context only is not reserved in the
+    function context being translated: the invariant clause "every package-level name is counted in every live
+    context" fails, so the next allocation there may hand the same name out again -/
+theorem root_only_breaks (nm : Name) (fc p : Scope) (ps : List Scope) (pk : List Name) (h0 : fc.vars.cnt nm = 0) :
+    ¬ Inv { chain := allocRootOnly nm (fc :: p :: ps), pkgNames := pk ++ [nm] } := by
+  intro hi
+  have := hi.pkg nm (by simp) fc (by simp [allocRootOnly])
+  omega
+
 /-- recording a pointer-variable name touches neither `allVars` nor `localVars` -/
 theorem inv_recordPtr {st : NState} {c : List Scope} (v : Nat) (nm : Name) (hi : Inv { st with chain := c }) :
     Inv { st with chain := recordPtr v nm c } := by
@@ -383,7 +421,7 @@ theorem inv_step {st st' : NState} {op : Op} (hi : Inv st) (h : stepOp true st o
         simp [hn] at h
         subst h
         have := (inv_req (inv_copy hi hch) hn).1
-        simpa using this
+        exact inv_of_eq this rfl (by simp)
   | pop =>
     simp only [stepOp] at h
     cases hch : st.chain with
@@ -422,7 +460,32 @@ theorem inv_step {st st' : NState} {op : Op} (hi : Inv st) (h : stepOp true st o
       obtain ⟨c, nm⟩ := p
       simp [hn] at h
       subst h
-      exact (inv_req hi hn).1
+      exact inv_of_eq (inv_req hi hn).1 rfl rfl
+  | obj o name pk =>
+    simp only [stepOp] at h
+    cases hl : (if pk then st.pkgObjs.lookup o else lookupObj o st.chain) with
+    | some nm =>
+      simp [hl] at h
+      subst h
+      exact hi
+    | none =>
+      simp only [hl] at h
+      cases hn : newVariable true name pk st.chain with
+      | none => simp [hn] at h
+      | some p =>
+        obtain ⟨c, nm⟩ := p
+        simp only [hn] at h
+        have hreq := (inv_req hi hn).1
+        cases pk with
+        | true =>
+          simp at h
+          subst h
+          exact inv_of_eq hreq rfl (by simp)
+        | false =>
+          simp at h
+          subst h
+          have h1 : Inv { st with chain := c } := inv_of_eq hreq rfl (by simp)
+          exact inv_recordObj (st := st) o nm h1
   | ptr v name =>
     simp only [stepOp, varPtrName, Bool.false_eq_true, if_false] at h
     cases hl : lookupPtr v st.chain with
@@ -440,7 +503,7 @@ theorem inv_step {st st' : NState} {op : Op} (hi : Inv st) (h : stepOp true st o
         subst h
         have := (inv_req hi hn).1
         simp only [Bool.false_eq_true, if_false] at this
-        exact inv_recordPtr (st := st) v nm this
+        exact inv_recordPtr (st := st) v nm (inv_of_eq this rfl rfl)
 
 theorem inv_run : ∀ (ops : List Op) (st st' : NState), Inv st → runOps true st ops = some st' → Inv st'
   | [], st, st', hi, h => by simp [runOps] at h; subst h; exact hi
